@@ -1,2 +1,20 @@
-(* placeholder; theorems are added below *)
-From Hexital Require Import Base.Prelude.
+(* C14 - Maintenance operations are idempotent and always converge to the batch state.
+   Proved here: purge removes every entry the indicator tree wrote - helper series at any
+   depth included - and nothing else.  Idempotence of calculate and convergence to the
+   batch state are proved for leaf indicators in Proofs/EngineProofs.v and restated below
+   once available; for composite indicators they are decided by correspondence + falsifier. *)
+From Coq Require Import ZArith List String Bool.
+From Hexital Require Import Base.Prelude Base.Num Model.Manager Model.Candle Model.Readings Model.Engine
+  Proofs.AccessProofs.
+Import ListNotations.
+
+Theorem C14_purge_exact :
+  forall (O : NumOps) (I : ind O) (st : store O),
+  let st' := purge O I st in
+  List.length st' = List.length st /\
+  forall k c c', nth_error st k = Some c -> nth_error st' k = Some c' ->
+    t c' = t c /\ cur O (p c') = cur O (p c) /\ clean O (p c') = clean O (p c) /\ tagged O (p c') = tagged O (p c) /\
+    (forall sub nm, In (sub, nm) (tree_names O FUEL I) -> lookup_own O sub (p c') nm = None) /\
+    (forall sub nm, ~ In (sub, nm) (tree_names O FUEL I) -> lookup_own O sub (p c') nm = lookup_own O sub (p c) nm).
+Proof. exact purge_exact. Qed.
+Print Assumptions C14_purge_exact.
